@@ -1,7 +1,7 @@
 #!/bin/bash
 # usage: tools/try_mutant.sh <patch.diff> <PROP> [tier]   -- applies patch to /repo, runs check, reverts
 set -u
-patch=$1; prop=$2; tier=${3:-quick}
+patch=$(realpath $1); prop=$2; tier=${3:-quick}
 cd /repo || exit 2
 if ! git diff --quiet; then echo "repo dirty"; exit 2; fi
 git apply "$patch" || { echo "patch does not apply"; exit 2; }
